@@ -27,6 +27,7 @@ mod c16;
 mod c18;
 mod c14;
 mod dce;
+mod gocomp;
 mod probe;
 mod rng;
 mod sexp;
@@ -56,11 +57,13 @@ fn main() {
         "c17" => c17::main(&args),
         "c17sem" => c17::main_sem(&args),
         "c19" => c19::main(&args),
+        "c19inst" => c19::main_inst(&args),
         "c13" => c13::main(&args),
         "c16" => c16::main(&args),
         "c18" => c18::main(&args),
         "c14" => c14::main(&args),
         "dce" => dce::main(&args),
+        "gocomp" => gocomp::main(&args),
         "probe" => probe::main(&args),
         "stages" => probe::stages(&args),
         "golden" => probe::golden(&args),
